@@ -233,6 +233,57 @@ class Repo:
                 found.append(n.value)
         return found[0] if len(found) == 1 else None
 
+    def public_owner(self, module, cname, name):
+        """A private helper (`_name`) is reported under the public function it was taken out of: the unique public
+        function/method of the same module that reaches it through private helpers only.  Anything else (public
+        names, helpers with several public callers or none) keeps its own name.  -> (class or None, name)"""
+        if not name.startswith("_") or name.startswith("__"):
+            return cname, name
+        cache = self.__dict__.setdefault("_owner_cache", {})
+        key = (module, cname, name)
+        if key in cache:
+            return cache[key]
+        m = self.module(module)
+        # callers within the module: functions calling `name(`, methods calling `self.name(` / `Cls.name(`
+        units = [(None, f.name, f) for f in m.functions.values()]
+        for c in m.classes:
+            if c in self.classes:
+                units += [(c, k, v) for k, v in self.classes[c].methods.items()]
+
+        def callers(target):
+            out = set()
+            for c, fname, fn in units:
+                if fname == target[1] and c == target[0]:
+                    continue
+                for n in ast.walk(fn):
+                    if isinstance(n, ast.Call):
+                        f = n.func
+                        if target[0] is None and isinstance(f, ast.Name) and f.id == target[1]:
+                            out.add((c, fname))
+                        elif target[0] is not None and isinstance(f, ast.Attribute) and f.attr == target[1] and isinstance(f.value, ast.Name) \
+                                and (f.value.id in ("self", "cls") or f.value.id in self.classes) and c is not None \
+                                and (target[0] in self.mro(c) or c in self.mro(target[0])):
+                            out.add((c, fname))
+            return out
+        seen, frontier, publics = set(), {(cname, name)}, set()
+        for _ in range(8):
+            nxt = set()
+            for t in frontier:
+                for c in callers(t):
+                    if c in seen:
+                        continue
+                    seen.add(c)
+                    if c[1].startswith("_") and not c[1].startswith("__"):
+                        nxt.add(c)
+                    else:
+                        publics.add(c)
+            frontier = nxt
+            if not frontier:
+                break
+        res = next(iter(publics)) if len(publics) == 1 else (cname, name)
+        cache[key] = res
+        return res
+
     def function(self, module, name):
         m = self.module(module)
         if name not in m.functions:
